@@ -216,6 +216,17 @@ def build_traj(spec: dict):
     unset = set(spec.get('unset', []))
     sp_map = spec.get('species', {})
     t = Trajectory(n, fieldsets=fs if fs else None)
+    sources = []
+
+    def _track(v):
+        if isinstance(v, np.ndarray):
+            sources.append(v)
+        elif isinstance(v, SpeciesValues):
+            for x in v.values():
+                if isinstance(x, np.ndarray):
+                    sources.append(x)
+        return v
+
     for fsname in ['base'] + fs:
         for fname, dims, dt, _req in FIELDS[fsname]:
             if fname == 'flight_id':
@@ -248,11 +259,22 @@ def build_traj(spec: dict):
                 raise ValueError(dims)
             if fname in unset:
                 val = None
-            setattr(t, fname, val)
+            setattr(t, fname, _track(val))
     for fname in spec.get('set_none', []):
         # bypass type conversion exactly like a caller that forgot a value
         t._data[fname] = None
+    t.__dict__['_verif_sources'] = sources
     return t
+
+
+def scribble_sources(traj):
+    """The caller reuses its work buffers: overwrite every array that was assigned to the
+    trajectory.  What was added is what the trajectory held when it was added."""
+    for a in traj.__dict__.get('_verif_sources', []):
+        try:
+            a[...] = 7 if a.dtype.kind in 'iu' else 123.25
+        except Exception:  # noqa: BLE001
+            pass
 
 
 def _snap_value(v):
